@@ -112,12 +112,12 @@ func BuildScript(hyps []*Term, goal *Term, logicNIA bool) *Script {
 		ls := lits[Sort(s)]
 		names := sortedKeys(ls)
 		for _, n := range names {
-			fmt.Fprintf(&sb, "(declare-const %s %s)\n", q("lit!"+n), s)
+			fmt.Fprintf(&sb, "(declare-const %s %s)\n", q("lit!"+s+"!"+n), s)
 		}
 		if len(names) > 1 {
 			sb.WriteString("(assert (distinct")
 			for _, n := range names {
-				sb.WriteString(" " + q("lit!"+n))
+				sb.WriteString(" " + q("lit!"+s+"!"+n))
 			}
 			sb.WriteString("))\n")
 		}
@@ -144,7 +144,7 @@ func BuildScript(hyps []*Term, goal *Term, logicNIA bool) *Script {
 		case "var":
 			return q(t.Name)
 		case "lit":
-			return q("lit!" + t.Name)
+			return q("lit!" + string(t.Sort) + "!" + t.Name)
 		case "app":
 			var as []string
 			for _, a := range t.Args {
